@@ -15,6 +15,7 @@ import (
 	"math/rand"
 	"os"
 	"path/filepath"
+	"runtime"
 	"sort"
 	"sync"
 	"sync/atomic"
@@ -38,6 +39,7 @@ type concBehaviour struct {
 	Threads [][]storeOp `json:"threads"`
 	Repeat  int         `json:"repeat"`
 	Burst   int         `json:"burst"`  // > 0: that many goroutines each deliver once to the (not yet existing) mailbox Names[1] at the same moment
+	Churn   bool        `json:"churn"`  // other after-event listeners are registered, replaced and removed while the threads run
 	Poison  bool        `json:"poison"` // file store: the index of mailbox Names[1] is damaged, the store is walked (which fails), then Names[0] (same lock bucket) is used
 }
 
@@ -57,6 +59,16 @@ func runConcHistory(w *tr.Writer, b concBehaviour, rep int, seed int64, scratch 
 	host := extension.NewHost()
 	// C16 under concurrency: every after-event of the history is recorded and reported with the final state
 	rec := &evRec{}
+	churnNames := []string{"churn-a", "churn-b", "churn-c"}
+	idle := func(event.MessageMetadata) {}
+	if b.Churn {
+		// other listeners, registered in front of the recorded one, come and go while events flow; the recorded
+		// listener works for a moment on each event so that its queue is not always empty
+		rec.hold = 100 * time.Microsecond
+		for _, n := range churnNames {
+			host.Events.AfterMessageDeleted.AddListener(n, idle)
+		}
+	}
 	host.Events.AfterMessageDeleted.AddListener("verif", func(m event.MessageMetadata) { rec.invoke("deleted", m) })
 	host.Events.AfterMessageStored.AddListener("verif", func(m event.MessageMetadata) { rec.invoke("stored", m) })
 	dir := filepath.Join(scratch, "store-"+b.ID+fmt.Sprint(rep))
@@ -307,6 +319,35 @@ func runConcHistory(w *tr.Writer, b concBehaviour, rep int, seed int64, scratch 
 	}
 	done := make(chan struct{})
 	go func() { wg.Wait(); close(done) }()
+	churned := make(chan struct{})
+	if !b.Churn {
+		close(churned)
+	}
+	if b.Churn {
+		// the recorded 'deleted' listener itself is never touched: what changes are the other names of its broker
+		// (replaced, removed, added again) and the 'stored' hook registered under its name (no 'stored' event occurs here)
+		go func() {
+			defer close(churned)
+			for i := 0; ; i++ {
+				select {
+				case <-done:
+					return
+				default:
+				}
+				n := churnNames[i%len(churnNames)]
+				switch i % 4 {
+				case 0, 1:
+					host.Events.AfterMessageDeleted.AddListener(n, idle)
+				case 2:
+					host.Events.AfterMessageDeleted.RemoveListener(n)
+					host.Events.AfterMessageDeleted.AddListener(n, idle)
+				case 3:
+					host.Events.AfterMessageStored.AddListener("verif", idle)
+				}
+				runtime.Gosched()
+			}
+		}()
+	}
 	close(start)
 	select {
 	case <-done:
@@ -318,6 +359,11 @@ func runConcHistory(w *tr.Writer, b concBehaviour, rep int, seed int64, scratch 
 	sort.Slice(evs, func(i, j int) bool { return evs[i].at < evs[j].at })
 	for _, e := range evs {
 		w.Emit(e.ev)
+	}
+	<-churned
+	if b.Churn {
+		// the recording 'stored' hook is back before the sentinels are sent
+		host.Events.AfterMessageStored.AddListener("verif", func(m event.MessageMetadata) { rec.invoke("stored", m) })
 	}
 	fin := tr.Ev{"a": "final", "t": hid, "evs": flushEvents(host, rec)}
 	snapInto(fin)
